@@ -31,6 +31,9 @@ Model/Store.vos Model/Store.vok Model/Store.required_vos: Model/Store.v Model/Ba
 Model/Coro.vo Model/Coro.glob Model/Coro.v.beautified Model/Coro.required_vo: Model/Coro.v Model/Store.vo
 Model/Coro.vio: Model/Coro.v Model/Store.vio
 Model/Coro.vos Model/Coro.vok Model/Coro.required_vos: Model/Coro.v Model/Store.vos
+Model/Valid.vo Model/Valid.glob Model/Valid.v.beautified Model/Valid.required_vo: Model/Valid.v Model/Coro.vo
+Model/Valid.vio: Model/Valid.v Model/Coro.vio
+Model/Valid.vos Model/Valid.vok Model/Valid.required_vos: Model/Valid.v Model/Coro.vos
 Model/Sys.vo Model/Sys.glob Model/Sys.v.beautified Model/Sys.required_vo: Model/Sys.v Model/Coro.vo
 Model/Sys.vio: Model/Sys.v Model/Coro.vio
 Model/Sys.vos Model/Sys.vok Model/Sys.required_vos: Model/Sys.v Model/Coro.vos
@@ -76,6 +79,9 @@ Model/MonC11.vos Model/MonC11.vok Model/MonC11.required_vos: Model/MonC11.v Mode
 Model/MonC02.vo Model/MonC02.glob Model/MonC02.v.beautified Model/MonC02.required_vo: Model/MonC02.v Model/Mon.vo
 Model/MonC02.vio: Model/MonC02.v Model/Mon.vio
 Model/MonC02.vos Model/MonC02.vok Model/MonC02.required_vos: Model/MonC02.v Model/Mon.vos
+Model/MonC13.vo Model/MonC13.glob Model/MonC13.v.beautified Model/MonC13.required_vo: Model/MonC13.v Model/Mon.vo
+Model/MonC13.vio: Model/MonC13.v Model/Mon.vio
+Model/MonC13.vos Model/MonC13.vok Model/MonC13.required_vos: Model/MonC13.v Model/Mon.vos
 Proofs/Framework.vo Proofs/Framework.glob Proofs/Framework.v.beautified Proofs/Framework.required_vo: Proofs/Framework.v Model/Mon.vo
 Proofs/Framework.vio: Proofs/Framework.v Model/Mon.vio
 Proofs/Framework.vos Proofs/Framework.vok Proofs/Framework.required_vos: Proofs/Framework.v Model/Mon.vos
@@ -142,6 +148,9 @@ Proofs/PC11.vos Proofs/PC11.vok Proofs/PC11.required_vos: Proofs/PC11.v Model/Mo
 Proofs/PC02.vo Proofs/PC02.glob Proofs/PC02.v.beautified Proofs/PC02.required_vo: Proofs/PC02.v Model/Mon.vo Model/MonC02.vo
 Proofs/PC02.vio: Proofs/PC02.v Model/Mon.vio Model/MonC02.vio
 Proofs/PC02.vos Proofs/PC02.vok Proofs/PC02.required_vos: Proofs/PC02.v Model/Mon.vos Model/MonC02.vos
+Proofs/PC13.vo Proofs/PC13.glob Proofs/PC13.v.beautified Proofs/PC13.required_vo: Proofs/PC13.v Model/Mon.vo Model/Valid.vo Proofs/Discipline.vo Proofs/SysInv.vo
+Proofs/PC13.vio: Proofs/PC13.v Model/Mon.vio Model/Valid.vio Proofs/Discipline.vio Proofs/SysInv.vio
+Proofs/PC13.vos Proofs/PC13.vok Proofs/PC13.required_vos: Proofs/PC13.v Model/Mon.vos Model/Valid.vos Proofs/Discipline.vos Proofs/SysInv.vos
 Props/C09.vo Props/C09.glob Props/C09.v.beautified Props/C09.required_vo: Props/C09.v Model/Mon.vo Model/MonC09.vo Proofs/StoreLocks.vo Proofs/Discipline.vo Proofs/SysInv.vo Proofs/PC09.vo
 Props/C09.vio: Props/C09.v Model/Mon.vio Model/MonC09.vio Proofs/StoreLocks.vio Proofs/Discipline.vio Proofs/SysInv.vio Proofs/PC09.vio
 Props/C09.vos Props/C09.vok Props/C09.required_vos: Props/C09.v Model/Mon.vos Model/MonC09.vos Proofs/StoreLocks.vos Proofs/Discipline.vos Proofs/SysInv.vos Proofs/PC09.vos
@@ -193,6 +202,9 @@ Props/C11.vos Props/C11.vok Props/C11.required_vos: Props/C11.v Model/Mon.vos Mo
 Props/C02.vo Props/C02.glob Props/C02.v.beautified Props/C02.required_vo: Props/C02.v Model/Mon.vo Model/MonC01.vo Model/MonC02.vo Model/MonC03.vo Proofs/SysInv.vo Proofs/PC01.vo Proofs/PC03.vo Proofs/PC02.vo
 Props/C02.vio: Props/C02.v Model/Mon.vio Model/MonC01.vio Model/MonC02.vio Model/MonC03.vio Proofs/SysInv.vio Proofs/PC01.vio Proofs/PC03.vio Proofs/PC02.vio
 Props/C02.vos Props/C02.vok Props/C02.required_vos: Props/C02.v Model/Mon.vos Model/MonC01.vos Model/MonC02.vos Model/MonC03.vos Proofs/SysInv.vos Proofs/PC01.vos Proofs/PC03.vos Proofs/PC02.vos
+Props/C13.vo Props/C13.glob Props/C13.v.beautified Props/C13.required_vo: Props/C13.v Model/Mon.vo Model/MonC13.vo Model/Valid.vo Model/Route.vo Proofs/Discipline.vo Proofs/SysInv.vo Proofs/PC13.vo
+Props/C13.vio: Props/C13.v Model/Mon.vio Model/MonC13.vio Model/Valid.vio Model/Route.vio Proofs/Discipline.vio Proofs/SysInv.vio Proofs/PC13.vio
+Props/C13.vos Props/C13.vok Props/C13.required_vos: Props/C13.v Model/Mon.vos Model/MonC13.vos Model/Valid.vos Model/Route.vos Proofs/Discipline.vos Proofs/SysInv.vos Proofs/PC13.vos
 Props/C15.vo Props/C15.glob Props/C15.v.beautified Props/C15.required_vo: Props/C15.v Gen/Status.vo Spec/Front15.vo Model/Coro.vo
 Props/C15.vio: Props/C15.v Gen/Status.vio Spec/Front15.vio Model/Coro.vio
 Props/C15.vos Props/C15.vok Props/C15.required_vos: Props/C15.v Gen/Status.vos Spec/Front15.vos Model/Coro.vos
